@@ -131,6 +131,11 @@ def run(ctx):
         e = c02.rand_eff(rng)
         for m, f in v4_steps(e):
             pairs.append(("4", c02.spell(e, rng), c02.spell(f, rng), m, [0]))
+    from .. import conc
+    fl = []
+    for p in pairs[:: max(1, len(pairs) // ctx.n(100, 1000))]:
+        fl += [["S", p[0], p[1]], ["S", p[0], p[2]]]
+    conc.flag_variants(ctx, [op for op in fl if core.sendable(op[2])], "monotonicity")
     ctx.count(len(pairs))
     ctx.sample({"less_severe": pairs[-1][1], "more_severe": pairs[-1][2], "metric": pairs[-1][3]})
     for ver in "234":
